@@ -2,6 +2,7 @@ package props
 
 import (
 	"bytes"
+	"errors"
 	"fmt"
 
 	tls "github.com/refraction-networking/utls"
@@ -324,8 +325,107 @@ func c22Resumed() *explore.Scenario {
 	}
 }
 
+// c22RejectedECH: a client that offered ECH to a server which does not hold the key goes through the
+// handshake on its outer hello (to authenticate the rejection). A server that negotiates application
+// settings on that handshake still has to receive the client's EncryptedExtensions where it expects it.
+func c22RejectedECH() *explore.Scenario {
+	var clients []gridClient
+	for _, g := range alpsClients() {
+		if g.Spec != nil {
+			continue
+		}
+		if sp, err := tls.UTLSIdToSpec(g.ID); err == nil {
+			for _, e := range sp.Extensions {
+				if _, ok := e.(*tls.GREASEEncryptedClientHelloExtension); ok {
+					clients = append(clients, g)
+					break
+				}
+			}
+		}
+	}
+	return &explore.Scenario{
+		Name: "alps-while-ech-is-rejected",
+		Run: func(x *explore.X) (r explore.Result) {
+			if len(clients) < 1 {
+				r.Violate("INFRA|c22-ech-clients", "no parrot carries both ALPS and ECH")
+				return
+			}
+			g := clients[x.Choose("client", len(clients))]
+			cp := []uint16{17513, 17613}[x.Choose("codepoint", 2)]
+			withECH := x.Choose("ech-config-set", 2) == 1 // 0 = control: the same handshake without ECH
+			h0, err := g.probeHello()
+			if err != nil || h0.Find(cp) == nil {
+				r.Obs = "codepoint-not-offered"
+				return
+			}
+			o := offerOf(h0)
+			proto := "h2"
+			mine := []byte("client-settings-for-" + proto)
+			ccfg := g.config("example.com")
+			ccfg.ApplicationSettings = map[string][]byte{proto: mine}
+			if withECH {
+				e := peer.MakeECH(peer.ECHParams{ConfigID: 9, PublicName: "example.com", MaxNameLen: 32})
+				ccfg.EncryptedClientHelloConfigList = e.ConfigList
+				ccfg.MinVersion = tls.VersionTLS13
+			}
+			certKind := "ecdsa"
+			if !offersCert(o, "ecdsa") {
+				certKind = "rsa"
+			}
+			sc := serverChoice{Vers: tls.VersionTLS13, Cert: certKind, Proto: proto}
+			scfg := sc.config()
+			scfg.ClientAuth = tls.RequestClientCert
+			srvSettings := []byte{0x42, 0x43}
+			hk := &connHooks{WantEE: true}
+			hk.Out = func(n int, t uint8, d []byte) []byte {
+				if t == 8 {
+					return editEE(d, cp, srvSettings)
+				}
+				return d
+			}
+			what := fmt.Sprintf("%s codepoint=%d ech-offered-and-rejected=%v", g.Name, cp, withECH)
+			var cleanup func()
+			hs := peer.Run(ccfg, g.ID, scfg, peer.Opts{Prepare: g.prepare(), Echo: !withECH,
+				OnConns: func(u *tls.UConn, s *tls.Conn) { cleanup = installHooks(s, hk) }})
+			if cleanup != nil {
+				cleanup()
+			}
+			r.Nontrivial = true
+			r.Class = what
+			if hs.CPanic != "" {
+				r.Violate("C22|panic", "%s: %s", what, truncStr(hs.CPanic, 300))
+				return
+			}
+			if !hk.GotEE {
+				r.Violate(fmt.Sprintf("C22|no-client-encrypted-extensions|ech-rejected=%v", withECH), "%s: the server negotiated application settings and read no client EncryptedExtensions after its flight (client: %v, server: %v)", what, hs.CErr, hs.SErr)
+				return
+			}
+			ee := hk.ClientEE
+			if !(len(ee) >= 10 && ee[0] == 8) || uint16(ee[6])<<8|uint16(ee[7]) != cp {
+				r.Violate("C22|client-ee-shape", "%s: client EncryptedExtensions % x", what, trunc(ee, 40))
+			} else if body := ee[10:]; !bytes.Equal(body, mine) {
+				r.Violate("C22|client-settings-not-sent|ech-rejected", "%s: the client sent %q as its settings", what, body)
+			}
+			if withECH {
+				var rej *tls.ECHRejectionError
+				if !errors.As(hs.CErr, &rej) {
+					r.Count("rejection_not_reported:"+errClass(hs.CErr), 1) // C15's subject
+				}
+				if hs.SErr != nil {
+					r.Violate("C22|server-fails-under-rejected-ech|"+truncStr(errClass(hs.SErr), 60), "%s: the server's handshake failed: %v", what, hs.SErr)
+				}
+			} else if !(hs.OK() && hs.EchoOK) {
+				r.Violate("C22|negotiation-fails|control", "%s: client %v / server %v", what, hs.CErr, hs.SErr)
+			}
+			r.Count("alps_under_ech_cases", 1)
+			r.Obs = fmt.Sprintf("ech=%v|ee=%d|cerr=%s", withECH, len(ee), errClass(hs.CErr))
+			return
+		},
+	}
+}
+
 func c22Scenarios(thorough bool) []*explore.Scenario {
-	return []*explore.Scenario{c22Scenario(), c22Resumed()}
+	return []*explore.Scenario{c22Scenario(), c22Resumed(), c22RejectedECH()}
 }
 
 func init() {
